@@ -392,3 +392,5 @@ func verifClientWorld(p parser.Parser, nsps ...string) (*Manager, map[string]*cl
 	}
 	return m, out
 }
+
+var verifHeaderEvent = parser.PacketHeader{Type: parser.PacketTypeEvent, Namespace: "/"}
